@@ -197,8 +197,8 @@ def rule_peers(ctx):
     src = _norm(ast.unparse(sl.node))
     ctx.check("except ConnectionError: self._stop_event.set() return" in src, sl.fq, "a peer that is gone ends the send loop quietly", "a vanished peer crashes the send loop", "returns")
     st = ctx.prog.func("rpc.RPCServerConnection.stop")
-    body = [s for s in st.node.body if not (isinstance(s, ast.Expr) and isinstance(s.value, ast.Constant))]
-    ctx.check(len(body) == 1 and ast.unparse(body[0]) == "self._stop_event.set()", st.fq, "stop() only sets the event", "stop() does more than signalling", "set only")
+    called = [ast.unparse(c.func) for c in calls_in(st.node)]
+    ctx.check(called == ["self._stop_event.set"] and not any(isinstance(n, (ast.Await, ast.Raise)) for n in ast.walk(st.node)), st.fq, "stop() only sets the event", "stop() does more than signalling", "set only")
     sc = ctx.prog.func("rpc.SocketRPCServer._serve_connection")
     ctx.check("finally" in ast.unparse(sc.node) or any(isinstance(n, ast.Try) and n.finalbody for n in ast.walk(sc.node)), sc.fq, "a failing connection is removed from the server's set", "leak", "finally: discard")
     dr = ctx.prog.func("rpc._decode_request")
